@@ -108,6 +108,7 @@ var propOverrides = map[string]func(*propCfg){
 	"C02": func(c *propCfg) { c.quickRuns, c.quickSecs = 1500, 100 },
 	"C39": func(c *propCfg) { c.quickRuns, c.quickSecs = 800, 90 },
 	"C07": func(c *propCfg) { c.quickRuns, c.quickSecs = 700, 110 },
+	"C13": func(c *propCfg) { c.quickRuns, c.quickSecs = 600, 110 },
 	"C11": func(c *propCfg) {
 		c.level = "fault_enumeration"
 		c.plans = func(base uint64, tier string) []*plan.Plan {
